@@ -1130,6 +1130,7 @@ class Facts:
         for p, f in list(self.fns.items()):
             if f.crate in known and getattr(f, "inlined", False):
                 g = scalarise_struct_locals(self, f, set(known_adts.get(f.crate, {})))
+                g = resolve_local_derefs(g)
                 if g is not f:
                     self.fns[p] = g
 
@@ -2858,6 +2859,77 @@ def _places(x, out, skip=()):
         for k, v in x.items():
             if k not in ("l", "p"):
                 _places(v, out, skip)
+
+
+def resolve_local_derefs(fn):
+    """`(*r).f` where r is, by a chain of single definitions, `&mut L` for a local L of this function (a reference taken only to be
+    handed to an inlined helper / closure: `r = &mut L`, `r2 = &mut *r`, `r3 = move r2`, packed into and unpacked from the argument
+    tuple of a closure call) is `L.f`: the write or read is made directly on L."""
+    j = fn.j
+    defs = {}
+    for bi, blk in enumerate(j["blocks"]):
+        for st in blk["stmts"]:
+            if st["k"] == "assign" and not st["lhs"]["p"]:
+                defs.setdefault(st["lhs"]["l"], []).append(st)
+            elif st["k"] == "assign":
+                defs.setdefault(("partial", st["lhs"]["l"]), []).append(st)
+        t = blk["term"]
+        if t["k"] == "call" and "dest" in t and not t["dest"]["p"]:
+            defs.setdefault(t["dest"]["l"], []).append(None)
+    alias = {}
+
+    def target(op, depth=0):
+        """(L, proj) the operand (a reference value) points to."""
+        if depth > 8 or op["k"] not in ("copy", "move"):
+            return None
+        l, pth = op["l"], op["p"]
+        if pth:
+            # a field of a tuple of references built here: t = (r0, r1); t.0
+            if len(pth) == 1 and re.fullmatch(r"\.\d+", pth[0]) and len(defs.get(l, [])) == 1 and defs[l][0] is not None:
+                rv = defs[l][0]["rv"]
+                if rv["k"] == "agg" and "tuple" in str(rv.get("agg", rv.get("kind", "tuple"))) or (rv["k"] == "agg" and not rv.get("adt") and not rv.get("closure") and "array" not in rv):
+                    k = int(pth[0][1:])
+                    if k < len(rv.get("ops", [])):
+                        return target(rv["ops"][k], depth + 1)
+            return None
+        if l <= fn.arg_count or len(defs.get(l, [])) != 1 or defs[l][0] is None:
+            return None
+        rv = defs[l][0]["rv"]
+        if rv["k"] == "use":
+            return target(rv["op"], depth + 1)
+        if rv["k"] == "ref":
+            pl = rv["place"]
+            if not pl["p"] or pl["p"][0] != "*":
+                if pl["l"] > fn.arg_count and ("partial", pl["l"]) not in defs or pl["l"] > fn.arg_count:
+                    return (pl["l"], list(pl["p"]))
+                return None
+            inner = target({"k": "copy", "l": pl["l"], "p": []}, depth + 1)
+            if inner is not None:
+                return (inner[0], inner[1] + list(pl["p"][1:]))
+        return None
+    occ = []
+    _places(j["blocks"], occ)
+    hits = []
+    for pl in occ:
+        if pl["p"] and pl["p"][0] == "*" and len(pl["p"]) > 1:
+            tg = target({"k": "copy", "l": pl["l"], "p": []})
+            if tg is not None:
+                hits.append((pl, tg))
+    if not hits:
+        return fn
+    nj = json.loads(json.dumps(j))
+    occ2 = []
+    _places(nj["blocks"], occ2)
+    for pl in occ2:
+        if pl["p"] and pl["p"][0] == "*" and len(pl["p"]) > 1:
+            tg = target({"k": "copy", "l": pl["l"], "p": []})
+            if tg is not None:
+                pl["l"], pl["p"] = tg[0], tg[1] + list(pl["p"][1:])
+    nf = Fn(nj, fn.crate)
+    for attr in ("inlined", "inlined_paths"):
+        if hasattr(fn, attr):
+            setattr(nf, attr, getattr(fn, attr))
+    return nf
 
 
 def scalarise_struct_locals(facts, fn, known_adts):
